@@ -40,15 +40,17 @@ type Gate struct {
 	taskGoid uint64
 	stallNs  int64
 	stalled  bool
+	used     bool  // Begin has been called at least once: calls are bracketed by operations
 	foreign  int32 // calls served on another goroutine than the task's, this operation
 	Fired    *map[string]int
 }
 
 // Begin is called by the task before the library call of one operation.
 func (g *Gate) Begin(stallNs int64) {
+	g.used = true
 	g.stallNs, g.stalled = stallNs, false
 	atomic.StoreInt32(&g.foreign, 0)
-	if stallNs > 0 || (engine.SeamTimers != nil && engine.SeamTimers() > 0) {
+	if engine.SeamTimers != nil && engine.SeamTimers() > 0 {
 		g.taskGoid = engine.Goid()
 	} else {
 		g.taskGoid = 0
@@ -87,9 +89,27 @@ func (g *Gate) Late() (int, string) {
 // late = the operation it belongs to has already returned (the call must not be
 // served as part of it). The caller holds no lock.
 func (g *Gate) enter(n int, what string, off int64) (yield, late bool) {
-	if g.stallNs == 0 && g.taskGoid == 0 {
-		if atomic.LoadInt32(&g.inOp) == 1 || engine.SeamTimers == nil || engine.SeamTimers() == 0 {
-			return true, false // the ordinary case: the task's own goroutine, nothing armed
+	if !g.used {
+		return true, false // an object whose calls are not bracketed by operations: nothing to decide
+	}
+	timers := engine.SeamTimers != nil && engine.SeamTimers() > 0
+	pending := g.stallNs > 0 && !g.stalled
+	if !timers {
+		// The code under test has never created a timer: a slow call can only be
+		// seen through the clock, and which goroutine calls is not looked at.
+		if pending && n > 0 && g.claimStall() {
+			g.count("io.stall")
+			if engine.SeamAdvance != nil {
+				engine.SeamAdvance(time.Duration(g.stallNs))
+			}
+		}
+		return true, false
+	}
+	if g.taskGoid == 0 {
+		// timers appeared after this operation began (or outside any operation)
+		// (whose goroutine this is cannot be told: not a scheduling point)
+		if atomic.LoadInt32(&g.inOp) == 1 {
+			return false, false
 		}
 		g.noteLate(n, what, off)
 		return false, true
@@ -98,16 +118,12 @@ func (g *Gate) enter(n int, what string, off int64) (yield, late bool) {
 	if foreign {
 		atomic.AddInt32(&g.foreign, 1)
 	}
-	if g.stallNs > 0 && n > 0 && g.claimStall() {
+	if pending && n > 0 && g.claimStall() {
 		d := time.Duration(g.stallNs)
-		if g.Fired != nil {
-			g.mu.Lock()
-			(*g.Fired)["io.stall"]++
-			g.mu.Unlock()
-		}
+		g.count("io.stall")
 		if !foreign {
-			if engine.SeamAdvance != nil && engine.SeamAdvance(d) > 0 && g.Fired != nil {
-				(*g.Fired)["io.stall.timer_fired"]++
+			if engine.SeamAdvance != nil && engine.SeamAdvance(d) > 0 {
+				g.count("io.stall.timer_fired")
 			}
 		} else {
 			// Held until the operation has returned to the task — which it does
@@ -133,10 +149,8 @@ func (g *Gate) enter(n int, what string, off int64) (yield, late bool) {
 				}
 				time.Sleep(250 * time.Microsecond)
 			}
-			if fired > 0 && g.Fired != nil {
-				g.mu.Lock()
-				(*g.Fired)["io.stall.timer_fired"]++
-				g.mu.Unlock()
+			if fired > 0 {
+				g.count("io.stall.timer_fired")
 			}
 			defer atomic.AddInt32(&g.stalling, -1)
 		}
@@ -146,6 +160,14 @@ func (g *Gate) enter(n int, what string, off int64) (yield, late bool) {
 		return false, true
 	}
 	return !foreign, false
+}
+
+func (g *Gate) count(k string) {
+	if g.Fired != nil {
+		g.mu.Lock()
+		(*g.Fired)[k]++
+		g.mu.Unlock()
+	}
 }
 
 func (g *Gate) claimStall() bool {
